@@ -73,6 +73,7 @@ type vCtx struct {
 	sigSeen  map[string]int
 	sampleN  int
 	distinct map[[16]byte]struct{}
+	traceFile string
 	beatAt   atomic.Int64
 	beatCase atomic.Value // func() any
 }
@@ -84,6 +85,12 @@ func (c *vCtx) beat(f func() any) {
 	c.beatAt.Store(time.Now().UnixNano())
 	if f != nil {
 		c.beatCase.Store(f)
+		if c.traceFile != "" {
+			// trace mode (after a crash): persist the case before running it
+			if b, err := json.Marshal(f()); err == nil {
+				os.WriteFile(c.traceFile, b, 0o644)
+			}
+		}
 	}
 }
 
@@ -179,6 +186,7 @@ func VerifMain() {
 		replay  = flag.String("replay", "", "replay file")
 		comp    = flag.Bool("race-companion", false, "run the free-running companion body")
 		budget  = flag.Duration("budget", 0, "internal time budget")
+		trace   = flag.String("trace", "", "trace mode: persist each case to this file before running it")
 	)
 	flag.Parse()
 	ck, ok := vChecks[*prop]
@@ -202,6 +210,7 @@ func VerifMain() {
 	if *budget > 0 {
 		c.deadline = time.Now().Add(*budget)
 	}
+	c.traceFile = *trace
 	write := func() {
 		if *out == "" {
 			json.NewEncoder(os.Stdout).Encode(res)
